@@ -48,37 +48,73 @@ let eval_line sub k =
   | _ -> failwith ("unknown subcommand " ^ sub)
 
 
-(* whole-workflow reference evaluator: spec on stdin (MAX/SRC/PSRC/PROC/FILE lines), final file map on stdout *)
-let refeval () =
-  let nodes = ref [] and files = ref [] in
+(* whole-workflow model (WfModel.eval): spec on stdin, task list and final file map on stdout *)
+let wfeval () =
+  let nodes = ref [] and files = ref [] and targets = ref [] in
+  let opt_str k = let t = next k in if t = "~" then None else Some (to_l (unhex t)) in
   (try while true do
     let k = { t = List.filter (fun t -> t <> "") (String.split_on_char ' ' (input_line stdin)) } in
     if more k then
     (match next k with
-     | "SRC" -> let l = ref [] in while more k do l := str k :: !l done; nodes := NSrc (List.rev !l) :: !nodes
-     | "PSRC" -> let l = ref [] in while more k do l := str k :: !l done; nodes := NPSrc (List.rev !l) :: !nodes
+     | "SRC" -> let name = str k in let l = ref [] in while more k do l := str k :: !l done; nodes := NSrc (name, List.rev !l) :: !nodes
+     | "PSRC" -> let name = str k in let l = ref [] in while more k do l := str k :: !l done; nodes := NPSrc (name, List.rev !l) :: !nodes
+     | "S2S" -> let name = str k in let u = nat_of_int (int k) in let up = str k in nodes := NS2S (name, u, up) :: !nodes
+     | "COMP" -> let _ = next k in let name = str k in nodes := NSrc (name, []) :: !nodes
+     | "REC" | "PREC" -> let name = str k in nodes := NSrc (name, []) :: !nodes
      | "PROC" ->
+       let name = str k in
+       let _cores = int k in
        let kind = (match next k with "write" -> KWrite | "cat" -> KCat | _ -> KCatTok) in
        let tok = str k in
+       let fk = (match next k with "none" -> FNone | "before" -> FBefore | "partial" -> FPartial | "afterfull" -> FAfterFull | "omit" -> FOmit | _ -> FSignal) in
+       let fkey = str k in
+       let pattern = str k in
        let nin = int k in
-       let ins = List.init nin (fun _ -> let p = str k in let u = nat_of_int (int k) in let up = str k in (p, (u, up))) in
+       let ins = List.init nin (fun _ -> let p = str k in let nu = int k in
+                   let ups = List.init nu (fun _ -> let u = nat_of_int (int k) in let up = str k in (u, up)) in
+                   { ip_name = p; ip_ups = ups }) in
        let npar = int k in
-       let pars = List.init npar (fun _ -> let p = str k in let u = nat_of_int (int k) in (p, u)) in
+       let pars = List.init npar (fun _ -> let p = str k in
+                   match next k with
+                   | "U" -> (p, PUp (nat_of_int (int k)))
+                   | _ -> let n = int k in (p, PVals (List.init n (fun _ -> str k)))) in
        let nout = int k in
-       let outs = List.init nout (fun _ -> let p = str k in let pat = str k in (p, pat)) in
-       nodes := NProc { p_kind = kind; p_tok = tok; p_ins = ins; p_pars = pars; p_outs = outs } :: !nodes
+       let outs = List.init nout (fun _ -> let p = str k in let pat = opt_str k in { op_name = p; op_pat = pat }) in
+       let nextra = int k in
+       let extra = List.init nextra (fun _ -> str k) in
+       nodes := NProc { p_name = name; p_kind = kind; p_tok = tok; p_fail = fk; p_failkey = fkey; p_pattern = pattern;
+                        p_ins = ins; p_pars = pars; p_outs = outs; p_extra = extra } :: !nodes
+     | "RUNTO" -> while more k do targets := nat_of_int (int k) :: !targets done
      | "FILE" -> let p = str k in let c = str k in files := (p, c) :: !files
      | _ -> ())
   done with End_of_file -> ());
-  match eval (List.rev !nodes) (List.rev !files) with
-  | None -> print_endline "FAIL"
-  | Some f ->
-    let l = List.sort compare (List.map (fun (p, c) -> (of_l p, of_l c)) f) in
-    List.iter (fun (p, c) -> Printf.printf "%s %s\n" (hex p) (hex c)) l
+  match eval (List.rev !nodes) (List.rev !targets) (List.rev !files) with
+  | WNotReady -> print_endline "STATUS notready"
+  | WDone (tasks, fs, failed) ->
+    Printf.printf "STATUS done %d\n" (if failed then 1 else 0);
+    List.iter (fun t ->
+      let b = Buffer.create 256 in
+      let add s = Buffer.add_string b s; Buffer.add_char b ' ' in
+      add "TASK"; add (hexl t.tr_proc);
+      add (match t.tr_status with TRun -> "run" | TSkip -> "skip" | TFail -> "fail" | TInvalid -> "invalid");
+      add (string_of_int (List.length t.tr_ins));
+      List.iter (fun (p, it) -> add (hexl p);
+        (match it with
+         | IPath q -> add "P"; add "1"; add (hexl q)
+         | ISub ms -> add "S"; add (string_of_int (List.length ms)); List.iter (fun m -> add (hexl m)) ms)) t.tr_ins;
+      add (string_of_int (List.length t.tr_pars));
+      List.iter (fun (p, v) -> add (hexl p); add (hexl v)) t.tr_pars;
+      add (string_of_int (List.length t.tr_outs));
+      List.iter (fun (p, (st, q)) -> add (hexl p); add (if st then "1" else "0"); add (hexl q)) t.tr_outs;
+      add (hexl t.tr_content);
+      add (match t.tr_command with Ok c -> hexl c | Fail -> "<FAIL>");
+      print_endline (Buffer.contents b)) tasks;
+    let l = List.sort compare (List.map (fun (p, c) -> (of_l p, of_l c)) fs) in
+    List.iter (fun (p, c) -> Printf.printf "FILE %s %s\n" (hex p) (hex c)) l
 
 let () =
   let sub = Sys.argv.(1) in
-  if sub = "refeval" then refeval ()
+  if sub = "wfeval" then wfeval ()
   else
   try while true do
     let line = input_line stdin in
